@@ -444,6 +444,33 @@ func init() {
 	m["internal/bytealg.CompareString"] = func(in *Interp, fr *Frame, args []Value, call *ssa.CallCommon) Value {
 		return cmp3(in, args[0].(Str), args[1].(Str))
 	}
+	// strings.Fields counts the fields before it allocates (a symbolic length): modelled byte by byte, forking
+	// on "is ASCII white space"; a byte >= 0x80 is taken as part of a field (lone bytes are not Unicode spaces)
+	m["strings.Fields"] = func(in *Interp, fr *Frame, args []Value, call *ssa.CallCommon) Value {
+		s := args[0].(Str)
+		var fields []Str
+		start := -1
+		for i := 0; i < s.Len(); i++ {
+			c := s.At(i)
+			isSp := tOr(tEq(c, mkBV(8, ' ')), tAnd(tBin(OpULe, mkBV(8, 9), c), tBin(OpULe, c, mkBV(8, 13))))
+			if in.branch(isSp) {
+				if start >= 0 {
+					fields = append(fields, s.Slice(start, i))
+					start = -1
+				}
+			} else if start < 0 {
+				start = i
+			}
+		}
+		if start >= 0 {
+			fields = append(fields, s.Slice(start, s.Len()))
+		}
+		o := in.newObj(0, "strings.Fields")
+		for _, f := range fields {
+			o.cells = append(o.cells, f.Norm())
+		}
+		return Slice{obj: o, off: 0, len: len(fields), cap: len(fields)}
+	}
 	m["strings.Compare"] = func(in *Interp, fr *Frame, args []Value, call *ssa.CallCommon) Value {
 		return cmp3(in, args[0].(Str), args[1].(Str))
 	}
